@@ -4,6 +4,9 @@
 //! (principal id, resource id, context; per entity: attributes, ancestors, tags, or the whole entity).  Consistent
 //! completions are therefore available: the original, plus variations in which exactly the erased parts are
 //! re-sampled conformantly (parents only where no entity with *known* ancestors can see the change).
+//! 20% of the cases are the SET-MEMBERSHIP family (`member_case`): known, often empty or singleton, sets from the context or
+//! from entity data combined by contains / containsAny / containsAll with operands that stay residual and error on some
+//! completions (entities absent from the completion's store, overflow), under `!`, `||`, `&&`, `if`.
 //!   S  (the statement on the implementation, `propfail`):
 //!      * a definite TPE decision equals `Authorizer::is_authorized` on every sampled completion;
 //!      * every residual policy (`get_policy(id)`, evaluated by the concrete evaluator) is satisfied / unsatisfied /
@@ -879,7 +882,203 @@ fn action_query_check(out: &mut Out, r: &mut Rng, s: &Setup, q: &DRequest, ps: &
     }
 }
 
+
+// ------------------------------------------------------------------------------------------------
+// set-membership family: known (often EMPTY or singleton) sets combined with operands that stay residual
+// ------------------------------------------------------------------------------------------------
+
+/// a fixed schema with set-valued context fields and entity attributes of three element types (entities, longs,
+/// strings), next to the reference chains of `chain_spec`: `contains` / `containsAny` / `containsAll` between a set
+/// that partial evaluation knows and an operand it does not know
+fn member_spec() -> gs::SchemaSpec {
+    use gs::{ActionSpec, AppliesSpec, AttrSpec, ETypeSpec, STy};
+    let at = |n: &str, ty: STy, required: bool| AttrSpec { name: n.to_string(), ty, required };
+    let user = || STy::Entity("User".into());
+    let set = |t: STy| STy::Set(Box::new(t));
+    let et = |n: &str, member_of: Vec<&str>, attrs: Vec<AttrSpec>, tags: Option<STy>| ETypeSpec { name: n.into(), ns: "".into(), base: n.into(), member_of: member_of.into_iter().map(String::from).collect(), attrs, tags, enum_ids: None };
+    gs::SchemaSpec {
+        namespaces: vec!["".into()],
+        etypes: vec![
+            et("User", vec!["Group"], vec![at("manager", user(), false), at("name", STy::Str, true), at("level", STy::Long, true), at("friends", set(user()), true), at("scores", set(STy::Long), true)], Some(STy::Str)),
+            et("Group", vec!["Group"], vec![at("owner", user(), false)], None),
+            et("Doc", vec!["Group"], vec![at("owner", user(), true), at("parent", STy::Entity("Doc".into()), false), at("public", STy::Bool, true), at("editors", set(user()), true), at("labels", set(STy::Str), true)], None),
+        ],
+        actions: vec![
+            ActionSpec { ns: "".into(), id: "readOnly".into(), member_of: vec![], applies: None },
+            ActionSpec {
+                ns: "".into(),
+                id: "view".into(),
+                member_of: vec![0],
+                applies: Some(AppliesSpec {
+                    principals: vec!["User".into()],
+                    resources: vec!["Doc".into()],
+                    context: vec![at("blocked", set(user()), true), at("allow", set(user()), true), at("nums", set(STy::Long), true), at("labels", set(STy::Str), true), at("via", user(), false), at("n", STy::Long, true)],
+                    context_common: None,
+                }),
+            },
+        ],
+        commons: vec![],
+    }
+}
+
+/// `<set>.<op>(<operand>)` (both orders for the set-set operators) under `!`, `||`, `&&`, `if`, in `when` / `unless`
+/// of permits and forbids, so that "errors" and "false" lead to different outcomes.  Sets: context fields, attributes
+/// of principal / resource / a literal entity / an entity reached through an attribute.  Operands: request variables,
+/// attribute chains (erroring when an entity on the way is absent from the store of the completion), guarded optional
+/// attributes and tags, arithmetic that overflows for some completions.
+fn member_policy(r: &mut Rng) -> (String, usize) {
+    let eid = |r: &mut Rng| (*r.pick(gs::EIDS)).to_string();
+    let (u, g) = (eid(r), eid(r));
+    let k = *r.pick(&["k1", "k2", "some tag"]);
+    let big = *r.pick(&["9223372036854775807", "9223372036854775806", "1", "0"]);
+    // (guard, set expression, element expression, set-valued operand expressions) per element type
+    let kind = r.below(3);
+    let (set_srcs, elems, sets2): (Vec<String>, Vec<(String, String)>, Vec<(String, String)>) = match kind {
+        0 => (
+            vec!["context.blocked".into(), "context.allow".into(), "principal.friends".into(), "resource.editors".into(), format!("User::\"{u}\".friends"), "resource.owner.friends".into()],
+            vec![
+                ("".into(), "principal".into()),
+                ("".into(), "resource.owner".into()),
+                ("".into(), format!("User::\"{u}\"")),
+                ("resource.owner has manager && ".into(), "resource.owner.manager".into()),
+                ("principal has manager && ".into(), "principal.manager".into()),
+                ("context has via && ".into(), "context.via".into()),
+                ("resource has parent && ".into(), "resource.parent.owner".into()),
+                ("".into(), "(if resource.public then resource.owner else principal)".into()),
+            ],
+            vec![
+                ("".into(), "[resource.owner]".into()),
+                ("".into(), "[resource.owner, principal]".into()),
+                ("".into(), "resource.owner.friends".into()),
+                ("".into(), "resource.editors".into()),
+                ("".into(), "context.allow".into()),
+                ("principal has manager && ".into(), "principal.manager.friends".into()),
+                ("resource has parent && ".into(), "[resource.parent.owner]".into()),
+            ],
+        ),
+        1 => (
+            vec!["context.nums".into(), "principal.scores".into(), "resource.owner.scores".into(), format!("User::\"{u}\".scores")],
+            vec![
+                ("".into(), "principal.level".into()),
+                ("".into(), "resource.owner.level".into()),
+                ("".into(), format!("context.n + {big}")),
+                ("".into(), format!("principal.level * {}", r.range(2, 5))),
+                ("".into(), "resource.owner.level - context.n".into()),
+                ("principal has manager && ".into(), "principal.manager.level".into()),
+            ],
+            vec![
+                ("".into(), "[resource.owner.level]".into()),
+                ("".into(), format!("[context.n + {big}, 1]")),
+                ("".into(), "resource.owner.scores".into()),
+                ("".into(), "principal.scores".into()),
+                ("".into(), "[principal.level - context.n]".into()),
+            ],
+        ),
+        _ => (
+            vec!["context.labels".into(), "resource.labels".into()],
+            vec![
+                ("".into(), "principal.name".into()),
+                ("".into(), "resource.owner.name".into()),
+                (format!("principal.hasTag(\"{k}\") && "), format!("principal.getTag(\"{k}\")")),
+                (format!("resource.owner.hasTag(\"{k}\") && "), format!("resource.owner.getTag(\"{k}\")")),
+                ("resource has parent && ".into(), "resource.parent.owner.name".into()),
+            ],
+            vec![
+                ("".into(), "[resource.owner.name]".into()),
+                ("".into(), "[principal.name, resource.owner.name]".into()),
+                ("".into(), "resource.labels".into()),
+                (format!("principal.hasTag(\"{k}\") && "), format!("[principal.getTag(\"{k}\")]")),
+            ],
+        ),
+    };
+    let s = r.pick(&set_srcs).clone();
+    let (guard, test) = match r.below(5) {
+        0 | 1 => {
+            let (gd, e) = r.pick(&elems).clone();
+            (gd, format!("{s}.contains({e})"))
+        }
+        2 => {
+            let (gd, e) = r.pick(&sets2).clone();
+            if r.chance(70) { (gd, format!("{s}.containsAny({e})")) } else { (gd, format!("{e}.containsAny({s})")) }
+        }
+        3 => {
+            let (gd, e) = r.pick(&sets2).clone();
+            if r.chance(50) { (gd, format!("{s}.containsAll({e})")) } else { (gd, format!("{e}.containsAll({s})")) }
+        }
+        _ => {
+            let (gd, e) = r.pick(&elems).clone();
+            (gd, format!("{s}.isEmpty() || {s}.contains({e})"))
+        }
+    };
+    let other = match r.below(4) {
+        0 => "resource.public".to_string(),
+        1 => format!("principal.level > {}", r.range(-3, 5)),
+        2 => format!("principal in Group::\"{g}\""),
+        _ => "context.n < 3".to_string(),
+    };
+    let body = match r.below(9) {
+        0 => format!("{guard}{test}"),
+        1 | 2 => format!("{guard}!{test}"),
+        3 => format!("{guard}({test} || {other})"),
+        4 => format!("{guard}({other} || !({test}))"),
+        5 => format!("{guard}(if {test} then {other} else true)"),
+        6 => format!("{guard}(if !({test}) then true else {other})"),
+        7 => format!("{guard}!({test} || {other})"),
+        _ => format!("{guard}!({test} && {other})"),
+    };
+    let eff = if r.chance(65) { "permit" } else { "forbid" };
+    let pscope = match r.below(4) { 0 => format!("principal in Group::\"{g}\""), 1 => format!("principal == User::\"{u}\""), _ => "principal".into() };
+    let ascope = if r.chance(70) { "action == Action::\"view\"" } else { "action in Action::\"readOnly\"" };
+    let rscope = match r.below(3) { 0 => "resource is Doc".to_string(), 1 => format!("resource in Group::\"{g}\""), _ => "resource".into() };
+    let clause = if r.chance(75) { "when" } else { "unless" };
+    (format!("{eff}({pscope}, {ascope}, {rscope}) {clause} {{ {body} }};"), 1)
+}
+
+/// sets become empty (45%) or singletons (25%): the membership tests above are decided by the known set alone
+fn shrink_sets(r: &mut Rng, kvs: &mut Vec<(String, gs::DVal)>) {
+    for (_, v) in kvs.iter_mut() {
+        if let gs::DVal::Set(xs) = v {
+            let m = r.below(100);
+            if m < 45 {
+                xs.clear();
+            } else if m < 70 {
+                xs.truncate(1);
+            }
+        }
+    }
+}
+
+fn member_case(out: &mut Out, r: &mut Rng, cname: &str, k_var: usize) {
+    let Ok(w) = gs::load(member_spec()) else { out.count("member_world_rejected"); return };
+    let n_pol = 1 + r.below(3);
+    let texts: Vec<(String, usize)> = (0..4 * n_pol).map(|_| member_policy(r)).collect();
+    let Some(mut s) = setup_from(w, texts) else { out.count("no_valid_policies"); return };
+    if s.pols.len() > n_pol {
+        // keep the first n_pol accepted policies
+        let keep: Vec<(String, usize)> = s.pols.iter().take(n_pol).map(|p| (p.text.clone(), p.target.1)).collect();
+        let Ok(w) = gs::load(member_spec()) else { return };
+        let Some(s2) = setup_from(w, keep) else { return };
+        s = s2;
+    }
+    let mut store = gs::gen_store(r, &s.w.spec).entities;
+    for e in store.iter_mut() {
+        shrink_sets(r, &mut e.attrs);
+    }
+    let Some(ents) = build_entities(&s.w, &store) else { out.count("store_rejected_by_rust_validation"); return };
+    let mut q = gt::gen_request_for(r, &s.w.spec, 1, "User", "Doc");
+    shrink_sets(r, &mut q.context);
+    let mut ps = gen_pspec(r, &store, &ents);
+    // the sets of the context are mostly known, the entities the operands talk about mostly not
+    ps.ctx_known = r.chance(80);
+    ps.r_known = r.chance(45);
+    out.count("family:set-membership");
+    run_case(out, r, &s, store, q, ps, &format!("{cname} family=set-membership"), k_var);
+}
+
 fn one_case(out: &mut Out, r: &mut Rng, cname: &str, k_var: usize) {
+    if r.chance(20) {
+        return member_case(out, r, cname, k_var);
+    }
     let n_pol = 1 + r.below(5);
     let Some(s) = gen_setup(r, n_pol) else { out.count("no_valid_policies"); return };
     let store = gs::gen_store(r, &s.w.spec).entities;
